@@ -26,6 +26,7 @@ func runC20(c *Ctx) {
 	c20ParseWidth(c)
 	c20Guards(c)
 	c20ListGrammar(c, NewGuardEngine(c.P, c.Depth+2))
+	c20LostUpdates(c)
 }
 
 type methodSet struct {
